@@ -190,6 +190,15 @@ func vhDefReplacementLit() Rules {
 	return Rules{"Root": {{"Two", `a\x{FFFD}`, nil}, {"Repl", `\x{FFFD}`, nil}, {"Other", `(?s).`, nil}}}
 }
 
+// a back-reference next to an escaped backslash followed by a digit (\\2 is
+// the two characters backslash and 2, not a reference to group 2)
+func vhDefBackrefEscaped() Rules {
+	return Rules{
+		"Root": {{"Open", `(a)`, Push("H")}, {"Two", `2`, nil}},
+		"H":    {{"End", `\1\\2`, Pop()}, {"Any", `[a2\\]`, nil}},
+	}
+}
+
 func vhDefBackref() Rules { // heredoc-style back-reference
 	return Rules{
 		"Root": {{"Start", `<([a-c])`, Push("H")}, {"Ident", `[a-c]`, nil}},
